@@ -164,6 +164,19 @@ func (g *Gen) run() {
 				rs = append(rs, e.reach)
 			}
 			cur = g.define("reach."+fmt.Sprint(b.Index), "Bool", or(rs...))
+			// edges that cannot be taken (path variants) do not take part in the merge
+			if len(ins) > 1 {
+				var live []edge
+				for _, e := range ins {
+					if e.reach != "false" {
+						live = append(live, e)
+					}
+				}
+				if len(live) > 0 && len(live) < len(ins) {
+					ins = live
+					inEdges[b] = live
+				}
+			}
 			// merge states
 			if len(ins) == 1 {
 				st = ins[0].st.clone()
@@ -219,11 +232,13 @@ func (g *Gen) run() {
 						st.heaps[k] = first
 						continue
 					}
-					n := g.declConst(g.fresh(k+"@b"+fmt.Sprint(b.Index)), g.heapSort[k])
-					for _, e := range ins {
-						g.assumeRaw(implies(e.reach, sx("=", n, g.heap(e.st, k, g.heapSort[k]))))
+					// the merged heap is the ite over the incoming edges (a definition,
+					// not a fresh constant constrained by implications)
+					term := g.heap(ins[len(ins)-1].st, k, g.heapSort[k])
+					for j := len(ins) - 2; j >= 0; j-- {
+						term = sx("ite", ins[j].reach, g.heap(ins[j].st, k, g.heapSort[k]), term)
 					}
-					st.heaps[k] = n
+					st.heaps[k] = g.define(k+"@b"+fmt.Sprint(b.Index), g.heapSort[k], term)
 				}
 				same := true
 				for _, e := range ins[1:] {
@@ -243,6 +258,23 @@ func (g *Gen) run() {
 			}
 		}
 		g.cur, g.st = cur, st
+
+		// merges that dominate this block (for case splitting in the solver)
+		{
+			var sp [][]string
+			if id := b.Idom(); id != nil {
+				sp = g.blockSplits[id]
+			}
+			if ins := inEdges[b]; len(ins) > 1 {
+				var es []string
+				for _, e := range ins {
+					es = append(es, e.reach)
+				}
+				sp = append(append([][]string{}, sp...), es)
+			}
+			g.blockSplits[b] = sp
+			g.curSplits = sp
+		}
 
 		_, isHead := g.loopOf[b]
 		if !isHead && b.Comment != "recover" {
@@ -390,6 +422,11 @@ func (g *Gen) run() {
 				}
 				g.cur = save
 				return
+			}
+			if g.deadEdge[[2]int{b.Index, to.Index}] {
+				// path variant: this edge is not taken in this run (the obligations
+				// behind it are checked by the sibling variants)
+				reach = "false"
 			}
 			inEdges[to] = append(inEdges[to], edge{b, g.define("edge", "Bool", reach), g.st})
 		}
@@ -753,6 +790,14 @@ func (g *Gen) alloc(x *ssa.Alloc) {
 	case *types.Struct:
 		g.zeroStruct(g.st, et, r)
 	case *types.Array:
+		if localLiteralArray(x) {
+			// array literal / variadic argument list: built element by element and
+			// then sliced, all in one block. Its content is kept as a local SMT
+			// array and written to the heap once, when it is sliced.
+			g.pendArr[x] = &pendingArr{ref: r, term: g.zero(et), et: u.Elem()}
+			g.set(x, Val{T: r, S: "Int", G: x.Type()})
+			return
+		}
 		hn := elemHeapName(u.Elem())
 		es := g.sortOf(u.Elem())
 		hs := "(Array Int (Array Int " + es + "))"
@@ -761,6 +806,65 @@ func (g *Gen) alloc(x *ssa.Alloc) {
 		g.storeLoc(g.st, g.cellLoc(Val{T: r}, et), g.zero(et))
 	}
 	g.set(x, Val{T: r, S: "Int", G: x.Type()})
+}
+
+type pendingArr struct {
+	ref  string
+	term string
+	et   types.Type
+}
+
+// localLiteralArray: an allocated array whose only uses are element
+// addresses (stored to / loaded from) and slicing, all in the allocating block.
+func localLiteralArray(x *ssa.Alloc) bool {
+	if x.Referrers() == nil {
+		return false
+	}
+	nslice := 0
+	for _, r := range *x.Referrers() {
+		switch u := r.(type) {
+		case *ssa.IndexAddr:
+			if u.Block() != x.Block() || u.Referrers() == nil {
+				return false
+			}
+			for _, rr := range *u.Referrers() {
+				switch w := rr.(type) {
+				case *ssa.Store:
+					if w.Addr != ssa.Value(u) || w.Block() != x.Block() {
+						return false
+					}
+				case *ssa.UnOp:
+					if w.Block() != x.Block() {
+						return false
+					}
+				case *ssa.DebugRef:
+				default:
+					return false
+				}
+			}
+		case *ssa.Slice:
+			if u.Block() != x.Block() {
+				return false
+			}
+			nslice++
+		case *ssa.DebugRef:
+		default:
+			return false
+		}
+	}
+	return nslice == 1
+}
+
+// flushPending writes a pending literal array to the heap (once).
+func (g *Gen) flushPending(x *ssa.Alloc) {
+	p, ok := g.pendArr[x]
+	if !ok {
+		return
+	}
+	delete(g.pendArr, x)
+	hn := elemHeapName(p.et)
+	hs := "(Array Int (Array Int " + g.sortOf(p.et) + "))"
+	g.setHeap(g.st, hn, hs, sx("store", g.heap(g.st, hn, hs), p.ref, p.term))
 }
 
 func (g *Gen) binop(x *ssa.BinOp) Val {
@@ -998,7 +1102,9 @@ func (g *Gen) store(x *ssa.Store) {
 		for root.Kind == LSub {
 			root = root.Parent
 		}
-		g.frameCheck(root.Heap, root.Base, root.Idx, root.Kind)
+		if root.Kind != LPend {
+			g.frameCheck(root.Heap, root.Base, root.Idx, root.Kind)
+		}
 		g.storeLoc(g.st, p.Loc, v.T)
 		return
 	}
@@ -1032,6 +1138,13 @@ func (g *Gen) indexAddr(x *ssa.IndexAddr) {
 			Idx: sx("idx", sx("s-off", v.T), i.T), S: g.sortOf(u.Elem()), G: u.Elem()}, G: x.Type()}
 	case *types.Pointer:
 		at := u.Elem().Underlying().(*types.Array)
+		if al, ok := x.X.(*ssa.Alloc); ok {
+			if p, pending := g.pendArr[al]; pending {
+				g.check("idx", srcName(x.X), and(sx("<=", "0", i.T), sx("<", i.T, fmt.Sprint(at.Len()))), "array index out of range")
+				g.vals[x] = Val{Loc: &Loc{Kind: LPend, pend: p, Idx: i.T, S: g.sortOf(at.Elem()), G: at.Elem(), Base: p.ref, Heap: elemHeapName(at.Elem())}, G: x.Type()}
+				return
+			}
+		}
 		if v.Loc != nil {
 			// array stored inside a field/cell: element of the array value
 			g.check("idx", srcName(x.X), and(sx("<=", "0", i.T), sx("<", i.T, fmt.Sprint(at.Len()))), "array index out of range")
@@ -1083,6 +1196,9 @@ func (g *Gen) sliceOp(x *ssa.Slice) {
 		g.set(x, Val{T: sx("mk-slice", sx("s-arr", v.T), sx("+", sx("s-off", v.T), lo), sx("-", hi, lo), sx("-", max, lo)), S: "Slice", G: x.Type()})
 	case *types.Pointer:
 		at := u.Elem().Underlying().(*types.Array)
+		if al, ok := x.X.(*ssa.Alloc); ok {
+			g.flushPending(al)
+		}
 		n := fmt.Sprint(at.Len())
 		if x.High != nil {
 			hi = g.val(x.High).T
